@@ -24,6 +24,7 @@ def txOk (s : String) : Bool :=
   | ["ont", f, t, a] => acct f && acct t && isU64 a
   | ["ong", f, t, a] => acct f && acct t && isU64 a
   | ["claim", f, a] => acct f && isU64 a
+  | ["fan", f, n, a] => acct f && isU64 n && isU64 a && (match n.toNat? with | some n => 1 ≤ n && n ≤ 5000 | none => false)
   | _ => false
 
 def opOk (op : String) : Bool := op == "e" || (op.splitOn "+").all txOk
@@ -200,6 +201,13 @@ def handle (line : String) : String :=
       (match hOk hs ops.length, storeNo xs with
        | some h, some x => if ops.all opOk then caseOut (idsOf ops) h (commitOrder.take (before commitOrder x)) none else "skip"
        | _, _ => "skip")
+    | "RS", [hs] =>
+      -- real death on entering the state-store commit: what precedes it in the commit order is durable, and the state
+      -- database is untouched (a batch reaches the database only in BatchCommit: theorem C01_batch_atomic)
+      (match hOk hs ops.length with
+       | some h =>
+         if ops.all opOk then caseOut (idsOf ops) h (commitOrder.take (before commitOrder 2)) none ++ " statedb=eq" else "skip"
+       | none => "skip")
     | "RR", [hs, ks, ts, xs] =>
       -- real crash in the recovery of a composed first-level state: the recovery commit of store `x` fails
       (match hOk hs ops.length, parseSet ks, parseT ts, storeNo xs with
